@@ -42,7 +42,12 @@ def pin_polyclip(check):
 
 TIE_MODULE = T + "Ties"
 TIE_THEOREMS = ["C14_tie_toPolyClip", "C14_tie_polyClipToPolygon", "C14_tie_clipperOp", "C14_tie_Polygons", "C14_tie_op",
+                "C14_tie_maxAbs", "C14_tie_scalePath", "C14_tie_clipLine_body", "C14_tie_clipLine",
                 "C14_tie_LineString_Clip", "C14_tie_MultiLineString_Clip", "C14_src_clip"]
+# Scale.lean: the fixed clipLine (small operands scaled up by a power of two) = the unchanged glue around the
+# sweep conjugated by the scaling; Flip.lean: closureOK follows from validity + general position
+SCALE_THEOREMS = ["clipLineM_eq", "trivialCase_scale", "bbox_scale", "scaleOf_pos", "polyClipToPolygon_scale"]
+FLIP_THEOREMS = ["closureOK_of_valid", "cross_lemma", "inside_flip", "uniqueHit_of_valid", "C14_pointset_of_segs'", "C14_exact_of_segs'"]
 
 
 SRC_MODULE = T + "Src"
@@ -91,23 +96,24 @@ def pregen(check):
 
 CFG = {
     "id": "C14",
-    "lean_modules": ["GeomV.C14.Proofs", "GeomV.C14.Complete", "GeomV.C14.Length", "GeomV.C14.Unify", "GeomV.C14.Known", "GeomV.C14.Src", TIE_MODULE],
+    "lean_modules": ["GeomV.C14.Proofs", "GeomV.C14.Complete", "GeomV.C14.Length", "GeomV.C14.Unify", "GeomV.C14.Flip", "GeomV.C14.Scale", "GeomV.C14.Known", "GeomV.C14.Src", TIE_MODULE],
     "lean_dirs": ["C14", "C01"],
     "exe": "geomv_c14",
     "go_cmd": "c14",
     "stages": ["go:gen", "go:impl", "lean:judge"],
-    "theorems": [T + n for n in ["C14_glue", "C14_trivial", "C14_exact", "C14_vertices", "C14_empty_iff", "oracle_midpoints_inside", "oracle_endpoints_on_L", "oracle_subintervals_cover", "oracle_complete", "oracle_complete_col", "boundary_param_mem", "oracle_intervals_disjoint", "collinear_free", "C14_length", "C14_together_defect", "C14_pointset_of_segs", "C14_exact_of_segs", "closed_iff_covered", "covered_mergeAdj", "onSeg_sub_iff", "C14_known_small_scale", "known_small_scale_facts"] + TIE_THEOREMS + SRC_THEOREMS],
+    "theorems": [T + n for n in ["C14_glue", "C14_trivial", "C14_exact", "C14_vertices", "C14_empty_iff", "oracle_midpoints_inside", "oracle_endpoints_on_L", "oracle_subintervals_cover", "oracle_complete", "oracle_complete_col", "boundary_param_mem", "oracle_intervals_disjoint", "collinear_free", "C14_length", "C14_together_defect", "C14_pointset_of_segs", "C14_exact_of_segs", "closed_iff_covered", "covered_mergeAdj", "onSeg_sub_iff", "C14_known_small_scale", "known_small_scale_facts"] + SCALE_THEOREMS + FLIP_THEOREMS + TIE_THEOREMS + SRC_THEOREMS],
     "level": "proof",
     "trusted_base": [
         "Lean 4.33.0 kernel; axioms of every theorem printed by #print axioms must be within {propext, Classical.choice, Quot.sound}",
         "the CLIPLINE sweep of github.com/ctessum/polyclip-go v1.1.0 (everything in clipper.compute after its two trivial-case tests, and the connector) is a PARAMETER of the model with ONE explicit contract hypothesis, ClipLineSegsSpec (the segments of the returned pieces are, up to direction and order, the oracle's maximal inside parts): the headline (C14_exact_of_segs) and the length clause (C14_length) both rest on it; it is exercised and compared with the exact Rat oracle on every generated case, not proved. (C14_exact / C14_vertices / C14_empty_iff are also stated under the point-set form ClipLineSpec.)",
-        "T1: harness/cmd/c14/extract.go (go/ast, ~550 lines, translation table in its header) regenerates lean/GeomV/C14/Gen.lean from linestring.go / multilinestring.go / polygon.go (+ the Polygons() methods of multipolygon.go, bounds.go) of the tree under test on every run, in a faulting monad (index, slice, make are partial: GenLib.lean); Ties.lean proves that LineString.Clip, MultiLineString.Clip, Polygon.op, clipperOp, toPolyClip, polyClipToPolygon, Polygons as regenerated return WITHOUT FAULT exactly the model's clip / polyOp / clipperOp / polyClipToPolygon / polygonsOf. Not modelled by the translation: slice capacity (taken = length) and aliasing (observed by the harness: operands compared with a snapshot after every call, histories on one object, concurrent callers)",
+        "T1: harness/cmd/c14/extract.go (go/ast, ~700 lines, translation table in its header) regenerates lean/GeomV/C14/Gen.lean from linestring.go / multilinestring.go / polygon.go (+ the Polygons() methods of multipolygon.go, bounds.go) of the tree under test on every run, in a faulting monad (index, slice, make are partial: GenLib.lean); Ties.lean proves that LineString.Clip, MultiLineString.Clip, clipLine, maxAbs, scalePath, Polygon.op, clipperOp, toPolyClip, polyClipToPolygon, Polygons as regenerated return WITHOUT FAULT exactly the model's clip (scaledCore core) / polyOp / clipperOp / polyClipToPolygon / polygonsOf. float64 is translated to the exact rational value (finite values only); math.Max / math.Abs / math.Ldexp / the exponent of math.Frexp are the hand-written GenLib.fmax / fabs / ldexp / frexpExp (the theorems use only that Ldexp(1, k) is positive, so they hold whatever exponent Frexp returns). Not modelled by the translation: slice capacity (taken = length) and aliasing (observed by the harness: operands compared with a snapshot after every call, histories on one object, concurrent callers; after every plain call a point is appended to every returned piece and all operands are overwritten, and the result must not change: answer `aliased` -> DIFF)",
+        "/repo fix (clipLine): operands whose largest absolute coordinate m satisfies 2^-1000 <= m < 1/2 are multiplied by 2^-e (m = f*2^e) before Polygon.op(.., CLIPLINE) and the pieces by the inverse. Scale.lean proves (clipLineM_eq) that this is the unchanged glue around the sweep conjugated by the scaling (scaledCore core): the two trivial-case tests of the clipper's head are invariant under a positive factor (trivialCase_scale), re-closing commutes with the scaling. The contract on the sweep is therefore a contract on the conjugated sweep - which is what the run compares per case. That the float multiplications are exact (power of two, no overflow, no subnormal result) is not formalised: the model multiplies rationals",
         "the head of polyclip's clipper.compute (construct: the two trivial-case tests), BoundingBox and Overlaps are transcribed by hand in lean/GeomV/C01/Model.lean and pinned by version + go.sum hash + sha256 of clipper.go/geom.go/connector.go (pin_polyclip); tied by the correspondence run",
         "IEEE-754 rounding: crossing points are floats, compared with the oracle's exact rational crossing points to 1e-9 of the extent; lengths are summed in binary64 and compared to 1e-9 relative; inputs are exact (the oracle works on the rational values of the float inputs)",
         "harness/cmd/c14 (+ harness/cmd/c01/shapes) + lean driver + lib/vcheck.py transport inputs faithfully",
     ],
     "assumptions": ["finite coordinates; membership in P is the even-odd rule over all rings of all member polygons; the oracle is proved sound and complete (oracle_complete: off the finitely many crossing parameters a point of a segment is inside P iff its parameter lies in an oracle interval); the length clause is proved under the segment form of the contract (ClipLineSegsSpec)",
-                    "closureOK (decidable; evaluated by the judge on every in-quantifier case, DIFF if false): every crossing parameter of a line segment whose point lies on the boundary of P is an end point of an inside interval, i.e. P lies on at least one side of every boundary crossing. It is the only use of 'a proper crossing flips the even-odd status', which is not proved",
+                    "closureOK (every crossing parameter of a line segment whose point lies on the boundary of P is covered by an inside interval) is no longer an assumption: closureOK_of_valid (Flip.lean) proves it from validC + gpLine ('a proper crossing flips the even-odd status': cross_lemma, inside_flip; the crossed edge is unique: uniqueHit_of_valid); C14_exact_of_segs' / C14_pointset_of_segs' / C14_src have no closure hypothesis. The judge still evaluates it on every in-quantifier case (DIFF if false - it would contradict the theorem)",
                     "OUT OF SCOPE (stated, not checked against the Spec): non-simple lines (self-crossing, repeated vertices, closed lines, members whose interiors meet), invalid polygons, lines not in general position (a line vertex on the boundary, a polygon vertex on the line, collinear overlap). Such cases get the class suffix -outside-quantifier; for them only the theorems that hold for ALL inputs apply and are compared: no panic and the glue (C14_tie_*, C14_glue), no piece in the trivial cases (C14_trivial)"],
     "rule": "simple open integer-grid polylines (random walks, zigzags with many crossings, walks entirely inside, entirely outside within the box, box-disjoint, straight through) and multi-line strings of 1-4 members that are pairwise disjoint or form a network (two routes between the same junctions with equal / different vertex counts and either direction, branches at a common end point; interiors never cross) "
             "against polygons with holes / multi-polygons / boxes at half-integer offsets (no line vertex on the boundary, no polygon vertex on the line: rejected by exact int64 tests); "
